@@ -51,6 +51,16 @@ def pool(I, tier, rnd):
     facts, nconst = db_units(I)
     return ps, facts, nconst
 
+def partial_families(I):
+    """Directed triples for *partial reconstruction*: a converted derived unit D (btu, hour) at a power the result only has
+    room for in part -- D^2 * kg/D, D*D/D, ... -- where Compound::mul sheds the conversion factor with mod_power."""
+    kg = ul.resolve(I, 'KiloGram'); out = []
+    for n in ('energy::BTU', 'units::time::HOUR'):
+        D = ul.resolve(I, n)
+        S = [[(D, 1, 0)], [(D, 2, 0)], [(D, -1, 0)], [(kg, 1, 0), (D, -1, 0)]]
+        out += list(itertools.product(S, repeat=3))
+    return out
+
 def dimkey(ents):
     return tuple(sorted(U.dims_of_compound(ents).items()))
 
@@ -60,7 +70,7 @@ def jobs(tier, seed, report):
     ps, facts, nconst = pool(I, tier, rnd)
     allq = ps + facts
     report.bounds = {'magnitudes': 'unbounded symbolic rationals', 'units': f'{len(ps)} literal units (14-unit basis, prefixed / powered / quotient variants, the plain number) + {len(facts)} distinct units of the {nconst} shipped constants',
-                     'triples': ('seeded sample: 260 triples for the multiplicative laws, 200 same-dimension triples for the additive and distributive laws' if tier == 'quick' else 'all same-dimension triples; 3000 seeded triples for the multiplicative laws')}
+                     'triples': ('seeded sample: 260 triples for the multiplicative laws plus 48 of the 128 directed partial-reconstruction triples (btu, hour at powers 1, 2, -1 and kg/D), 200 same-dimension triples for the additive and distributive laws' if tier == 'quick' else 'all same-dimension triples; 3000 seeded triples for the multiplicative laws plus all 128 directed partial-reconstruction triples')}
     report.outside = ['offset temperature scales (C09)', 'that a fact phrase finds its constant (C16, not applicable)', 'quantities with more than the units listed']
     report.assumptions = ['BigRational exact (SMT Real, nonlinear)', 'declared unit scales (checked against the standards in C05)', 'a looked-up fact is a quantity with one of the shipped units and an arbitrary value']
     report.models_used = ['num', 'coll', 'core']
@@ -73,6 +83,8 @@ def jobs(tier, seed, report):
         for t in itertools.product(qs, repeat=3): same.append(t)
     rnd.shuffle(same)
     mult = [tuple(rnd.choice(allq) for _ in range(3)) for _ in range(260 if tier == 'quick' else 3000)]
+    part = partial_families(I); rnd.shuffle(part)
+    mult = (part[:48] if tier == 'quick' else part) + mult
     mixed = [tuple(rnd.choice(allq) for _ in range(2)) for _ in range(60)]
     nsame = 200 if tier == 'quick' else len(same)
     for i in range(0, nsame, 4): js.append({'name': f'additive-{i}', 'kind': 'additive', 'triples': same[i:i + 4]})
